@@ -182,7 +182,8 @@ def make_factory(ctl):
             ctl.launches[self.v_index] = ctl.launches.get(self.v_index, 0) + 1
             ups = sorted((ctl.jobidx.get(id(d.origin), -1), d.origin.state.name) for d in self.dependencies
                          if isinstance(d, JobDependency))
-            ctl.events.append(dict(launch=self.v_index, upstream=ups, step=ctl.nsteps))
+            ctl.events.append(dict(launch=self.v_index, upstream=ups, step=ctl.nsteps,
+                                   states=[None if x is None else x.state.name for x in ctl.jobs]))
             self.state = JobState.RUNNING      # as CommandLineJob.aio_run does
             return FakeProcess(self)
 
@@ -221,7 +222,7 @@ def build_config(ctl, w, j, values, objs):
         elif how == "init":
             init.append(V.Pre(x=1000 + n, child=v))
         elif how == "explicit":
-            explicit.append(k)
+            explicit.append(v.__xpm__.task)      # the task behind the value returned by submit()
         else:
             raise ValueError(how)
     if items:
@@ -231,8 +232,8 @@ def build_config(ctl, w, j, values, objs):
     cfg = cls(**kw)
     if pre:
         cfg.add_pretasks(*pre)
-    for k in explicit:
-        cfg.add_dependencies(objs[k].__xpm__.dependency())
+    for up in explicit:
+        cfg.add_dependencies(up.__xpm__.dependency())
     return cfg, init
 
 
@@ -350,11 +351,11 @@ def run_workload(w):
         while ctl.nsteps < w.get("maxsteps", 400):
             ws = wait_status()
             busy = ws == "blocked"
-            if sched_in is not None:
-                if si >= len(sched_in):
-                    break
+            if sched_in is not None and si < len(sched_in):
                 act = sched_in[si]
                 si += 1
+            elif sched_in is not None and not w.get("then_random", True):
+                break
             else:
                 choices = []
                 if nxt < njobs and not busy:
